@@ -166,6 +166,64 @@ func (p *pathState) freshBool(prefix string) *Term {
 
 func (p *pathState) side(t *Term) {
 	p.order = append(p.order, t)
+	narrow(t)
+}
+
+// narrow tightens the syntactic interval of a variable when a constraint bounds it by a
+// constant. Variables are created per path, so the mutation is path-local. Intervals are
+// only used to fold comparisons that are implied by the path condition.
+func narrow(t *Term) {
+	neg := false
+	if t.op == "not" {
+		neg = true
+		t = t.args[0]
+	}
+	if len(t.args) != 2 {
+		return
+	}
+	x, y := t.args[0], t.args[1]
+	op := t.op
+	if op != "<" && op != "<=" && op != "=" {
+		return
+	}
+	if neg {
+		// not (x < y) == y <= x ; not (x <= y) == y < x
+		switch op {
+		case "<":
+			op, x, y = "<=", y, x
+		case "<=":
+			op, x, y = "<", y, x
+		default:
+			return
+		}
+	}
+	one := big.NewInt(1)
+	setHi := func(v *Term, c *big.Int) {
+		if v.op == "var" && !v.isBool && (v.hi == nil || c.Cmp(v.hi) < 0) {
+			v.hi = c
+		}
+	}
+	setLo := func(v *Term, c *big.Int) {
+		if v.op == "var" && !v.isBool && (v.lo == nil || c.Cmp(v.lo) > 0) {
+			v.lo = c
+		}
+	}
+	switch {
+	case y.op == "const" && op == "<=":
+		setHi(x, y.val)
+	case y.op == "const" && op == "<":
+		setHi(x, new(big.Int).Sub(y.val, one))
+	case x.op == "const" && op == "<=":
+		setLo(y, x.val)
+	case x.op == "const" && op == "<":
+		setLo(y, new(big.Int).Add(x.val, one))
+	case op == "=" && y.op == "const":
+		setHi(x, y.val)
+		setLo(x, y.val)
+	case op == "=" && x.op == "const":
+		setHi(y, x.val)
+		setLo(y, x.val)
+	}
 }
 
 // feasible asks whether the current path condition plus extra is satisfiable.
@@ -331,6 +389,7 @@ func decide(c *Term) bool {
 			t = tNot(c)
 		}
 		p.order = append(p.order, t)
+		narrow(t)
 		p.decided[key] = d.taken
 		p.decided[tNot(c).String()] = !d.taken
 		return d.taken
@@ -340,7 +399,10 @@ func decide(c *Term) bool {
 	}
 	// new decision: try true first
 	rt := e.feasible(c)
-	rf := e.feasible(tNot(c))
+	rf := "sat" // the path condition is satisfiable (invariant), so if c is unsat, not-c is sat
+	if rt != "unsat" {
+		rf = e.feasible(tNot(c))
+	}
 	if rt != "sat" && rt != "unsat" || rf != "sat" && rf != "unsat" {
 		panic(unsupported("solver returned " + rt + "/" + rf + " on a branch condition"))
 	}
@@ -468,7 +530,7 @@ func hostBug(r interface{}) bool {
 		}
 		return false
 	case string:
-		return strings.HasPrefix(r, "unexpected") || strings.HasPrefix(r, "no code for function") || strings.HasPrefix(r, "interp ")
+		return strings.HasPrefix(r, "unexpected") || strings.HasPrefix(r, "cannot convert") || strings.HasPrefix(r, "no code for function") || strings.HasPrefix(r, "interp ")
 	}
 	return true
 }
